@@ -410,15 +410,21 @@ impl<'a, F: Spill> ConvergenceMap<'a, F> {
             while ri < self.storage.root.len() {
                 let node = self.storage.root[ri];
                 if location.max_cut >= node.min_max_cut && location.max_cut <= node.max_max_cut {
-                    // Load block into memory (removes root[ri] via swap_remove).
-                    let bi = self.load_block_from_disk(ri)?;
-                    if let Some(ei) = self.storage.blocks[bi].find(location) {
+                    // Look into the block on disk first and only load it (which
+                    // evicts another block and reorders the root index) when it
+                    // holds the location. Loading every range-matching block made
+                    // the scan revisit the blocks it had just evicted and skip the
+                    // others, so it could spin forever when several spilled blocks
+                    // share a max-cut range.
+                    if self.read_block_from_disk(ri)?.find(location).is_some() {
+                        let bi = self.load_block_from_disk(ri)?;
+                        let ei = self.storage.blocks[bi]
+                            .find(location)
+                            .assume("loaded block holds the location")?;
                         return self.consume_entry(bi, ei);
                     }
-                    // Don't increment ri — swap_remove moved a new entry here.
-                } else {
-                    ri = ri.checked_add(1).assume("ri must not overflow")?;
                 }
+                ri = ri.checked_add(1).assume("ri must not overflow")?;
             }
         }
 
